@@ -130,16 +130,18 @@ func (l *Log) VerifPoolMuHeld() bool {
 
 // VerifYield, when set, is called before every acquisition of poolMu (the
 // calls are inserted into a build-time copy of ctlog.go by tools/mkoverlay.py).
-var VerifYield func(mu *sync.Mutex)
+var VerifYield func(mu sync.Locker)
 
-func verifYield(mu *sync.Mutex) {
+func verifYield(mu sync.Locker) {
 	if f := VerifYield; f != nil {
 		f(mu)
 	}
 }
 
 // VerifPoolMuAddr identifies the log a yield belongs to.
-func (l *Log) VerifPoolMuAddr() *sync.Mutex { return &l.poolMu }
+func (l *Log) VerifPoolMuAddr() sync.Locker { return &l.poolMu }
+
+func (l *Log) VerifRootsMuAddr() sync.Locker { return &l.rootsMu }
 
 // VerifYieldPoint, when set, is called after every close of a pool's done
 // channel (inserted by tools/mkoverlay.py like verifYield).
